@@ -56,7 +56,10 @@ struct C05 : RBase {
           default: recv = json{{"k", "bi"}, {"f", "str"}, {"args", json::array({src})}, {"t", "str"}}; break; }
         if (r.chance(0.3)) { // a null or out-of-range second operand makes the built-in hand its first operand through; the result is never printed (only the operand must stay intact)
           json ni{{"k", "null"}, {"t", "int"}}; json ns{{"k", "null"}, {"t", "str"}};
-          switch (r.below(5)) {
+          switch (r.below(8)) {
+            case 5: recv = bin("+", src, ns, "str"); break;
+            case 6: recv = bin("+", ns, src, "str"); break;
+            case 7: recv = bin("+", slit(""), src, "str"); break;
             case 0: recv = json{{"k", "bi"}, {"f", "substr"}, {"args", json::array({src, ni})}, {"t", "str"}}; break;
             case 1: recv = json{{"k", "bi"}, {"f", "lsubstr"}, {"args", json::array({src, ni})}, {"t", "str"}}; break;
             case 2: recv = json{{"k", "bi"}, {"f", "rsubstr"}, {"args", json::array({src, ni})}, {"t", "str"}}; break;
